@@ -39,6 +39,16 @@ func genGames(rng *PRNG, n, maxPlies, branch int) [][]string {
 		p := rules.MustFen(rules.StartFen)
 		plies := rng.Range(1, maxPlies)
 		var g []string
+		if rng.Intn(12) == 0 {
+			// a game that comes back to the initial position (knights out and home again)
+			sh := [][]string{{"g1f3", "g8f6", "f3g1", "f6g8"}, {"b1c3", "b8c6", "c3b1", "c6b8"}, {"g1h3", "b8a6", "h3g1", "a6b8"}}
+			for k := rng.Range(1, 2); k > 0; k-- {
+				for _, m := range sh[rng.Intn(len(sh))] {
+					g = append(g, m)
+					_ = p.Play(m)
+				}
+			}
+		}
 		for k := 0; k < plies; k++ {
 			lm := p.LegalMoves()
 			if len(lm) == 0 {
